@@ -452,8 +452,24 @@ def pos_class(shape, idx):
     return "first" if idx == 0 else ("last" if idx == n - 1 else "middle")
 
 
-def accepted(cands):
-    """ask the real macro (R) which candidates it accepts; -> list of (cand, TypeSpec)"""
+def doc_verdict(t, traits, entry="attr"):
+    """what the documentation says about this placement: -> ('accept' | 'reject' | 'unrecognised', detail)"""
+    derived = set(traits)
+    stray = [a for _, f in t.all_fields() for a in f.attrs if not (AFFECTS[a] & derived)]
+    if stray and entry == "attr":
+        return ("unrecognised", stray[0])  # the attribute belongs to no derived trait: not a helper attribute of this derive (rustc: unknown attribute)
+    for tr in traits:
+        for _, f in t.all_fields():
+            # under #[derive(Ex)] an attribute that belongs to no derived trait is inert
+            g = Field(f.name, f.ty, {a: v for a, v in f.attrs.items() if AFFECTS[a] & derived})
+            if ref_rejects(g, tr):
+                return ("reject", tr)
+    return ("accept", None)
+
+
+def accepted(cands, mismatches=None):
+    """ask the real macro (R) which candidates it accepts; -> list of (cand, TypeSpec). Disagreements with the documented
+    verdict (Appendix A.1 / A.4) are appended to `mismatches` as (cand, item text, attr text, doc verdict, what the macro did)."""
     reqs, specs = [], []
     for (sh, pl, ts, en) in cands:
         t = place(sh, pl, ts)
@@ -466,20 +482,44 @@ def accepted(cands):
         specs.append(((sh, pl, ts, en), t))
     res = _common.expand_many(reqs)
     out, rejected, leftover = [], 0, 0
-    for (cand, t), r in zip(specs, res):
-        if "panic" in r or not r.get("parse_ok"):
-            rejected += 1
-            continue
-        if _common.compile_errors(r):
-            rejected += 1
-            continue
-        if cand[3] == "attr":
-            item0 = r["items"][0]["text"] if r["items"] else ""
+    for ((cand, t), r), rq in zip(zip(specs, res), reqs):
+        doc = doc_verdict(t, cand[2], cand[3])
+        did = "accept"
+        if "panic" in r or not r.get("parse_ok") or _common.compile_errors(r):
+            did = "reject"
+        elif cand[3] == "attr":
+            item0 = r["items"][0].get("text", "") if r["items"] else ""
             if any(("# [%s" % a) in item0 or ("#[%s" % a) in item0 for a in CMP_ATTRS):
-                leftover += 1  # helper attribute not consumed: rustc would reject the program ("cannot find attribute")
-                continue
-        out.append((cand, t))
+                did = "unrecognised"  # helper attribute not consumed: rustc would reject the program ("cannot find attribute")
+        if mismatches is not None:
+            expect = doc[0]
+            if did != expect and not (did == "reject" and expect == "unrecognised"):
+                mismatches.append((cand, rq, doc, did, (_common.compile_errors(r) or [""])[0][:200]))
+        if did == "reject":
+            rejected += 1
+        elif did == "unrecognised":
+            leftover += 1
+        else:
+            out.append((cand, t))
     return out, rejected, leftover
+
+
+def report_mismatches(pid, mismatches, outcome, limit=6):
+    """a placement the documentation allows but the macro refuses (or the reverse) silently changes which programs the solver sees: report it"""
+    from . import e3, replay_e3
+    seen = set()
+    for cand, rq, doc, did, msg in mismatches:
+        key = "acceptance|%s|doc=%s|macro=%s" % (sig_of(cand), doc[0], did)
+        if key in seen or len(seen) >= limit:
+            continue
+        seen.add(key)
+        case = {"property": pid, "kind": "reject", "mode": rq[0], "attr": rq[1], "item": rq[2], "expected_reject": doc[0] == "reject",
+                "explain": "documentation verdict %s, macro %s (%s); verdict from the macro's own diagnostics, not from the solver" % (doc, did, msg)}
+        obs = replay_e3.observe(case)
+        path = e3.write_replay(pid, "acceptance%02d" % len(seen), case)
+        if did == "unrecognised" or doc[0] == "unrecognised" or replay_e3.disagrees(case, obs):
+            outcome.violation(key, path, "the macro %ss a placement for which the documentation says %s: %s %s | %s" % (
+                did, doc[0], rq[1], " ".join(rq[2].split())[:300], msg))
 
 
 def sig_of(cand):
